@@ -766,6 +766,10 @@ var c18Mutants = []Mutant{
 		Old:    "\tif _, err := io.Copy(tempFile, content); err != nil {\n\t\treturn \"\", fmt.Errorf(\"failed to ingest: %w\", err)\n\t}\n",
 		New:    "\tio.Copy(tempFile, content)\n",
 		Expect: "C18.R1.atomic-replace|~/registry/remote/credentials/internal/ioutil.Ingest|"},
+	{Name: "ingest-early-success-without-copy", File: "registry/remote/credentials/internal/ioutil/ioutil.go",
+		Old:    "\tif _, err := io.Copy(tempFile, content); err != nil {",
+		New:    "\tif content == nil {\n\t\treturn\n\t}\n\tif _, err := io.Copy(tempFile, content); err != nil {",
+		Expect: "C18.R1.atomic-replace|~/registry/remote/credentials/internal/ioutil.Ingest|success-implies-content-written"},
 	{Name: "ingest-error-ignored-before-rename", File: "registry/remote/credentials/internal/config/config.go",
 		Old:    "\tingest, err := ioutil.Ingest(configDir, bytes.NewReader(jsonBytes))\n\tif err != nil {\n\t\treturn fmt.Errorf(\"failed to save config file: %w\", err)\n\t}\n",
 		New:    "\tingest, _ := ioutil.Ingest(configDir, bytes.NewReader(jsonBytes))\n",
